@@ -11,6 +11,10 @@ def gen_case(seed, idx):
     rnd = lib.rng_for(seed, idx, 1717)
     dw = rnd.choice([8, 8, 16, 32])
     gran = rnd.choice([g for g in (1, 2, 4, 8, 16, 32) if dw % g == 0])
+    rnd2 = lib.rng_for(seed, idx, 1727)
+    if rnd2.random() < 0.2:
+        # geometries whose data_width/granularity ratio is not a power of two (legal: any divisor)
+        dw, gran = rnd2.choice([(24, 8), (12, 4), (40, 8), (48, 8), (56, 8), (6, 2), (24, 4), (9, 3), (15, 3)])
     aw = rnd.choice([2, 3, 4, 5, 6, 8])
     ops, depth, nreg = [], 0, 0
     names = ["a", "b", "c", "r0", "r1", "x"]
@@ -85,9 +89,16 @@ def run_impl(case):
                 accepted.append((rid, tuple(scope) + (nm,), widths[rid], off))
                 if frozen:
                     fails.append(("C17", "frozen builder accepted a register", len(obs)))
+                if off not in (None, BAD) and (off * gran) % dw != 0:
+                    fails.append(("C17", f"offset {off} accepted although {off} x {gran} / {dw} is not a whole address "
+                                         f"(the register cannot be at exactly offset x granularity / data_width)", len(obs)))
             except (ValueError, TypeError) as ex:
                 obs.append("refused")
                 stats["refused"] += 1
+                if (off not in (None, BAD) and (off * gran) % dw == 0 and nm != BAD and not frozen
+                        and "multiple" in str(ex)):
+                    fails.append(("C17", f"offset {off} refused as misaligned ({ex}) although {off} x {gran} / {dw} "
+                                         f"is the whole address {off * gran // dw}", len(obs)))
                 if stack and any(cm is not None for cm in stack) and unwind_rnd.random() < 0.35:
                     # the exception leaves the enclosing `with` blocks (the caller catches it outside):
                     # every open scope must be closed on the way out
